@@ -16,6 +16,7 @@
 //   dict …   see c03_dict.c (real static inline dictionary functions of lz_decoder.h)
 #include "hproto.h"
 #include <lzma.h>
+#include "c03_alloc.h"
 
 int h_dict_op(hp_line *l);
 
@@ -72,6 +73,7 @@ int main(void)
 {
 	hp_line l = {0};
 	lzma_stream pstrm = LZMA_STREAM_INIT;   // the persistent handle of rawr / rawmultir
+	pstrm.allocator = &c03_allocator;
 	while (hp_next(&l)) {
 		const char *op = l.tok[0];
 		setup s;
@@ -80,6 +82,7 @@ int main(void)
 			size_t n; uint8_t *in = hp_hex(l.tok[10], &n);
 			uint8_t *out = malloc(s.outcap ? s.outcap : 1);
 			lzma_stream fresh = LZMA_STREAM_INIT;
+			fresh.allocator = &c03_allocator;
 			lzma_stream strm = reuse ? pstrm : fresh;
 			lzma_ret ret = lzma_raw_decoder(&strm, s.filters);
 			if (ret != LZMA_OK) {
@@ -101,7 +104,7 @@ int main(void)
 			size_t n; uint8_t *in = hp_hex(l.tok[10], &n);
 			uint8_t *out = malloc(s.outcap ? s.outcap : 1);
 			size_t in_pos = 0, out_pos = 0;
-			lzma_ret ret = lzma_raw_buffer_decode(s.filters, NULL, in, &in_pos, n, out, &out_pos, s.outcap);
+			lzma_ret ret = lzma_raw_buffer_decode(s.filters, &c03_allocator, in, &in_pos, n, out, &out_pos, s.outcap);
 			answer(ret, in_pos, out_pos, out);
 			free(in); free(out); free(s.preset);
 		} else if ((!strcmp(op, "rawmulti") || !strcmp(op, "rawmultir")) && l.ntok == 13 && parse_common(&l, &s)) {
@@ -109,6 +112,7 @@ int main(void)
 			uint8_t *out = malloc(s.outcap ? s.outcap : 1);
 			const char *ic = "", *oc = "";
 			lzma_stream fresh = LZMA_STREAM_INIT;
+			fresh.allocator = &c03_allocator;
 			lzma_stream strm = reuse ? pstrm : fresh;
 			strm.avail_in = 0; strm.avail_out = 0;
 			lzma_ret ret = lzma_raw_decoder(&strm, s.filters);
